@@ -7,6 +7,7 @@ import SymfcModel.Gen.PermTables
 import SymfcModel.Lemmas.Coverage
 import SymfcModel.Lemmas.Pipeline
 import SymfcModel.Gen.PipelineFlow
+import SymfcModel.Lemmas.Corollaries
 namespace Symfc.C04
 open Symfc
 
@@ -144,5 +145,32 @@ theorem run_is_the_three_stage_pipeline :
     Gen.runFlowOptionalO2 = [("proj", "OPTIONAL(rotational_sum_rules) -=", ["complementary_compr_projector_rot_sum_rules_O2"])] ∧
     Gen.runFlowOptionalO3 = [] ∧ Gen.runFlowOptionalO4 = [] := by
   decide
+
+/-- C04, capstone (K4): the returned basis `B = A W₂ W₃` spans EXACTLY the admissible space, stated in terms of the
+    symmetries themselves. Symbols: `A` = `c_pt` = normalised indicator matrix (`w j` = 1/√|class j|) of `label` = the
+    connected components of the permutation stage = the S_n × T orbits (`C01.C01_order2/3/4`), i.e. the orbits of the
+    family `g s` of index permutations combined with lattice translations; `label i = none` = eliminated element;
+    `ρ h` = orthogonal action of operation `h` (coset representatives / unique rotations) on class space, coset projector
+    `avg ρ`; `T` = sum-rule matrix with rows `Σ_i Φ[i a, j b, …]`, divisor `ν > 0`; `W₂` = `eigsh_projector(Aᵀ P A)`,
+    `W₃` = `eigsh_projector_sumrule(…)` under the eigen contract. `Aᵀ A = 1` and `P` symmetric idempotent are DERIVED.
+    A tensor is a combination of basis vectors iff it vanishes on eliminated elements, is invariant under every index
+    permutation / lattice translation, is invariant under every operation, and obeys the sum rule. -/
+theorem basis_is_exactly_the_admissible_space {K : Type*} [Field K] [LinearOrder K] [IsStrictOrderedRing K]
+    {n k k₂ k₃ r G H : Type*} [Fintype n] [Fintype k] [Fintype k₂] [Fintype k₃] [Fintype r]
+    [DecidableEq n] [DecidableEq k] [DecidableEq k₂] [DecidableEq k₃] [Group H] [Fintype H]
+    (label : n → Option k) (w : k → K)
+    (hcount : ∀ j, (w j) ^ 2 * ((Finset.univ.filter (fun i => label i = some j)).card : K) = 1)
+    (g : G → Equiv.Perm n)
+    (horbit : ∀ i j, label i ≠ none → (label i = label j ↔ ∃ s : G, g s i = j))
+    (hnone : ∀ s i, label i = none → label (g s i) = none)
+    (A : Matrix n k K) (hAdef : A = Matrix.of (fun i j => if label i = some j then w j else 0))
+    {ρ : H → Matrix n n K} (hρ : GroupAvg.OrthRep ρ) (T : Matrix r n K) (ν : K) (hν : 0 < ν)
+    (W₂ : Matrix k k₂ K) (W₃ : Matrix k₂ k₃ K)
+    (h₂ : Pipeline.EigBasis (A.transpose * GroupAvg.avg ρ * A) W₂)
+    (h₃ : Pipeline.EigBasis (Pipeline.sumruleProj (A * W₂) T ν) W₃) (x : n → K) :
+    (∃ c : k₃ → K, x = (A * W₂ * W₃).mulVec c) ↔
+      ((∀ i, label i = none → x i = 0) ∧ (∀ s i, x (g s i) = x i) ∧
+        (∀ h, (ρ h).mulVec x = x) ∧ T.mulVec x = 0) :=
+  Corollaries.basis_is_exactly_the_admissible_space label w hcount g horbit hnone A hAdef hρ T ν hν W₂ W₃ h₂ h₃ x
 
 end Symfc.C04
